@@ -62,10 +62,25 @@ Fixpoint register_all (groups : list (list string)) (idx : nat) (d : list (strin
 Definition registry : list (string * nat) := register_all registry_groups_model 0 [].
 
 (* ---------- _theta_from_instruction ---------- *)
+Definition theta_returned : aexpr := AVar.                                    (* theta = float(gate.params[0]); return theta *)
 Definition theta_from_instruction (g : gdesc) : res aexpr :=
   if negb (g_has_param g) then Crashed            (* gate.params[0]: IndexError *)
-  else if g_param_ok g then Ok AVar               (* theta = float(gate.params[0]); return theta *)
+  else if g_param_ok g then Ok theta_returned     (* theta = float(gate.params[0]); return theta *)
   else Refused.                                    (* TypeError -> ValueError *)
+
+(* ---------- the angle arithmetic of the registered functions, one named step per source expression; the
+   functions below USE these steps and `angle_flow_model` RENDERS the same steps, so the comparison with the
+   regenerated fact `angle_flow` speaks about the functions, not about a parallel table ---------- *)
+Definition fam_ctrl_theta (theta : aexpr) : aexpr := ADiv2 (ANeg theta).     (* theta = -theta / 2 *)
+Definition fam_rot_arg (theta : aexpr) : aexpr := ANeg theta.                 (* RXGate(-theta) *)
+Definition fam_theta_prime (theta : aexpr) : aexpr := ADiv2 (ANeg theta).    (* theta_prime = -theta / 2 *)
+Definition cs_theta : aexpr := APiHalf.                                       (* theta = np.pi / 2 *)
+Definition cs_csdg_factor (theta : aexpr) : aexpr := ANeg theta.              (* theta *= -1 *)
+Definition cs_inner : string * (aexpr -> aexpr) := ("crz", fun t => t).       (* CRZGate(theta) *)
+Definition cp_inner : string * (aexpr -> aexpr) := ("crz", fun t => t).       (* CRZGate(theta) *)
+Definition cp_phase_arg (theta : aexpr) : aexpr := ADiv2 theta.               (* PhaseGate(theta / 2) *)
+Definition csx_inner : string * aexpr := ("crx", APiHalf).                    (* CRXGate(np.pi / 2) *)
+Definition csxdg_inner : string * aexpr := ("crx", ANeg APiHalf).             (* CRXGate(-np.pi / 2) *)
 
 (* ---------- the function registered for rxx ryy rzz crx cry crz ---------- *)
 Definition first_is_c (n : string) : bool :=
@@ -80,12 +95,12 @@ Definition family_fn (name : string) (theta0 : res aexpr) : res (pbasis * angles
   | Some ax =>
       res_bind theta0 (fun theta =>
         if first_is_c name then
-          let theta1 := ADiv2 (ANeg theta) in                    (* theta = -theta / 2 *)
-          let rot := ANeg theta1 in                              (* RXGate(-theta) *)
-          let thp := ADiv2 (ANeg theta1) in                      (* theta_prime = -theta / 2 *)
+          let theta1 := fam_ctrl_theta theta in                  (* theta = -theta / 2 *)
+          let rot := fam_rot_arg theta1 in                       (* RXGate(-theta) *)
+          let thp := fam_theta_prime theta1 in                   (* theta_prime = -theta / 2 *)
           Ok (family_basis ax true, mkAngles (Some thp) (Some rot) None)
         else
-          let thp := ADiv2 (ANeg theta) in
+          let thp := fam_theta_prime theta in
           Ok (family_basis ax false, mkAngles (Some thp) None None))
   end.
 Definition cx_fn (name : string) : res (pbasis * angles) :=
@@ -115,16 +130,16 @@ Definition qpd_model (g : gdesc) : res (pbasis * angles) :=
                         (call_registered "iswap" AVar)
   | Some 3 => family_fn n (theta_from_instruction g)
   | Some 4 =>                                                   (* cs csdg *)
-      let theta := if n =? "csdg" then ANeg APiHalf else APiHalf in     (* theta = np.pi / 2; theta *= -1 *)
+      let theta := if n =? "csdg" then cs_csdg_factor cs_theta else cs_theta in     (* theta = np.pi / 2; theta *= -1 *)
       let rot_gate := if n =? "csdg" then OTdg else OT in
-      map_basis (dress0 (ins0 rot_gate)) (call_registered "crz" theta)
+      map_basis (dress0 (ins0 rot_gate)) (call_registered (fst cs_inner) (snd cs_inner theta))
   | Some 5 =>                                                   (* cp *)
       res_bind (theta_from_instruction g) (fun theta =>
         res_map (fun ba => (dress0 (ins0 (OP Th2P)) (fst ba),
-                            mkAngles (a_thp (snd ba)) (a_rot (snd ba)) (Some (ADiv2 theta))))   (* PhaseGate(theta / 2) *)
-                (call_registered "crz" theta))
-  | Some 6 => map_basis (dress0 (ins0 OT)) (call_registered "crx" APiHalf)
-  | Some 7 => map_basis (dress0 (ins0 OTdg)) (call_registered "crx" (ANeg APiHalf))
+                            mkAngles (a_thp (snd ba)) (a_rot (snd ba)) (Some (cp_phase_arg theta))))   (* PhaseGate(theta / 2) *)
+                (call_registered (fst cp_inner) (snd cp_inner theta)))
+  | Some 6 => map_basis (dress0 (ins0 OT)) (call_registered (fst csx_inner) (snd csx_inner))
+  | Some 7 => map_basis (dress0 (ins0 OTdg)) (call_registered (fst csxdg_inner) (snd csxdg_inner))
   | Some 8 => cx_fn n
   | Some 9 => map_basis (fun b => dress1 (ins0 OSX) (dress0 (fun ops => app1 OX (ins0 OS ops)) b))
                         (call_registered "cx" AVar)
@@ -136,19 +151,32 @@ Definition qpd_model (g : gdesc) : res (pbasis * angles) :=
       else Refused
   end.
 
-(* the angle-flow expressions, rendered, for the comparison with the source (fact `angle_flow`) *)
+(* the angle steps USED above, rendered, for the comparison with the source (fact `angle_flow`) *)
+Definition show_call (name : string) (arg : aexpr) : string := (name ++ "(" ++ show_aexpr arg ++ ")")%string.
 Definition angle_flow_model : list (string * string) :=
-  [("theta_from_instruction", show_aexpr AVar);
-   ("family.controlled.theta", show_aexpr (ADiv2 (ANeg AVar)));
-   ("family.controlled.rot", show_aexpr (ANeg AVar));
-   ("family.theta_prime", show_aexpr (ADiv2 (ANeg AVar)));
-   ("cs.theta", show_aexpr APiHalf);
-   ("cs.csdg_factor", "neg");
-   ("cs.inner", "crz(theta)");
-   ("cp.inner", "crz(theta)");
-   ("cp.phase", show_aexpr (ADiv2 AVar));
-   ("csx.inner", ("crx(" ++ show_aexpr APiHalf ++ ")")%string);
-   ("csxdg.inner", ("crx(" ++ show_aexpr (ANeg APiHalf) ++ ")")%string)].
+  [("theta_from_instruction", show_aexpr theta_returned);
+   ("family.controlled.theta", show_aexpr (fam_ctrl_theta AVar));
+   ("family.controlled.rot", show_aexpr (fam_rot_arg AVar));
+   ("family.theta_prime", show_aexpr (fam_theta_prime AVar));
+   ("cs.theta", show_aexpr cs_theta);
+   ("cs.csdg_factor", match cs_csdg_factor AVar with ANeg AVar => "neg" | _ => "?" end);
+   ("cs.inner", show_call (fst cs_inner) (snd cs_inner AVar));
+   ("cp.inner", show_call (fst cp_inner) (snd cp_inner AVar));
+   ("cp.phase", show_aexpr (cp_phase_arg AVar));
+   ("csx.inner", show_call (fst csx_inner) (snd csx_inner));
+   ("csxdg.inner", show_call (fst csxdg_inner) (snd csxdg_inner))].
+
+(* which angle symbols a basis uses (to tie the side record `angles` to the operations inside the basis) *)
+Definition is_rot_sym (o : op1) : bool :=
+  match o with ORX Th2P | ORY Th2P | ORZ Th2P | ORX Th2M | ORY Th2M | ORZ Th2M => true | _ => false end.
+Definition is_phase_sym (o : op1) : bool := match o with OP Th2P | OP Th2M => true | _ => false end.
+Definition uses (f : op1 -> bool) (b : pbasis) : bool :=
+  existsb (fun t => existsb f (snd (fst t)) || existsb f (snd t)) (resolve b).
+Definition is_some {X} (o : option X) : bool := match o with Some _ => true | None => false end.
+(* the theta-dependent rotation / phase symbols occur in the basis exactly when the function recorded their meaning *)
+Definition symbols_bound (ba : pbasis * angles) : bool :=
+  Bool.eqb (uses is_rot_sym (fst ba)) (is_some (a_rot (snd ba))) &&
+  Bool.eqb (uses is_phase_sym (fst ba)) (is_some (a_phase (snd ba))).
 
 (* ---------- specification: the parameterised gates' own matrices in the gate angle, cvar 0 = cos(θ/2), cvar 1 = sin(θ/2)
    (compared with gate.to_matrix() by the harness at every generated angle) ---------- *)
